@@ -65,6 +65,6 @@ def items(tier):
                     it = {"fn": "canon", "params": {"skel": i, "n": n, "quoted": quoted, "strip_fragment": sf, "dp": dp},
                           "name": "%s n=%d quoted=%s sf=%s" % (name, n, quoted, sf), "weight": 8 ** n}
                     if n >= 2:
-                        it["defer_depth"] = 6 if n == 2 else 12
+                        it["defer_depth"] = 8 if n == 2 else 12
                     out.append(it)
     return out
